@@ -200,7 +200,7 @@ def decode_case_term(case, f, model, verdict_for_circuit):
 
 def model_err(e):
     n = ct.err_name(e)
-    return n if not n.startswith('UNMODELLED_') else 'OutOfFuel'
+    return n if not n.startswith('UNMODELLED_') else 'UnmodelledPythonException'
 
 
 # ------------------------------------------------------------------ constraint checks
